@@ -9,22 +9,28 @@ From Coq Require Import Psatz.
 Require Import Translated.
 Open Scope string_scope.
 
+(* writes to different keys commute: the lists are compared as multisets (methods of the same keeper are followed) *)
+Definition count (x : string) (l : list string) : nat := List.length (filter (String.eqb x) l).
+Definition same_writes (a b : list string) : bool :=
+  forallb (fun x => Nat.eqb (count x a) (count x b)) (a ++ b).
+
 (* TIE: Store_CreateUTXR Store_GenerateUtxrId *)
 Theorem create_writes_record_and_index :
-  Store_CreateUTXR = ["Set:UTXRStoreKey"; "Set:UTXRStoreByRequestIdKey"] /\ Store_GenerateUtxrId = ["Set:LastUtxrIdStoreKey"].
-Proof. split; reflexivity. Qed.
+  same_writes Store_CreateUTXR ["Set:LastUtxrIdStoreKey"; "Set:UTXRStoreKey"; "Set:UTXRStoreByRequestIdKey"] = true
+  /\ same_writes Store_GenerateUtxrId ["Set:LastUtxrIdStoreKey"] = true.
+Proof. split; vm_compute; reflexivity. Qed.
 
 (* every deletion of a record also deletes its request-id entry (F01 was the missing second delete) *)
 (* TIE: Store_deleteUTXR Store_DeleteUTXRByRequestId *)
 Theorem delete_removes_record_and_index :
-  Store_deleteUTXR = ["Delete:UTXRStoreKey"; "Delete:UTXRStoreByRequestIdKey"] /\
-  Store_DeleteUTXRByRequestId = ["Delete:UTXRStoreKey"; "Delete:UTXRStoreByRequestIdKey"].
-Proof. split; reflexivity. Qed.
+  same_writes Store_deleteUTXR ["Delete:UTXRStoreKey"; "Delete:UTXRStoreByRequestIdKey"] = true /\
+  same_writes Store_DeleteUTXRByRequestId ["Delete:UTXRStoreKey"; "Delete:UTXRStoreByRequestIdKey"] = true.
+Proof. split; vm_compute; reflexivity. Qed.
 
 (* TIE: Store_ImportUTXR *)
 Theorem import_writes_record_index_and_counter :
-  Store_ImportUTXR = ["Set:UTXRStoreKey"; "Set:UTXRStoreByRequestIdKey"; "Set:LastUtxrIdStoreKey"].
-Proof. reflexivity. Qed.
+  same_writes Store_ImportUTXR ["Set:UTXRStoreKey"; "Set:UTXRStoreByRequestIdKey"; "Set:LastUtxrIdStoreKey"] = true.
+Proof. vm_compute; reflexivity. Qed.
 
 (* the oracle fill rewrites a record under its own key and touches nothing else *)
 (* TIE: Store_SetRecipients Store_SetTenant *)
